@@ -698,6 +698,295 @@ fn run_split(sink: &mut Sink, dict: &JapaneseDictionary, t: &Text, subset: Optio
     }
 }
 
+// ---------------------------------------------------------------- the other public ways of filling a MorphemeList
+/// morphemes `from..` of a list
+fn read_morphs_from<T: DictionaryAccess>(ml: &MorphemeList<T>, from: usize) -> (Vec<MorphOut>, Option<String>) {
+    let mut out = vec![];
+    for i in from..ml.len() {
+        let r = catch(|| {
+            let m = ml.get(i);
+            let surface = m.surface().to_string();
+            MorphOut { b: m.begin(), e: m.end(), bc: m.begin_c(), ec: m.end_c(), surface }
+        });
+        match r {
+            Ok(m) => out.push(m),
+            Err(p) => {
+                let p: String = p.chars().take(160).collect();
+                return (out, Some(format!("morpheme {} of {}: begin/end/begin_c/end_c/surface panicked ({})", i, ml.len(), p)));
+            }
+        }
+    }
+    (out, None)
+}
+
+const TARGET_NAMES: [&str; 3] = ["fresh list", "empty_clone of the source", "list bound to another text"];
+
+fn tokenize_c<'a>(dict: &'a JapaneseDictionary, text: &str) -> Option<MorphemeList<&'a JapaneseDictionary>> {
+    catch(|| {
+        let mut tok = StatefulTokenizer::new(dict, Mode::C);
+        tok.reset().push_str(text);
+        if tok.do_tokenize().is_err() {
+            return None;
+        }
+        tok.into_morpheme_list().ok()
+    })
+    .ok()
+    .flatten()
+}
+
+/// a target list of the given kind; Some(n) = it holds n morphemes of the other text that were not cleared
+fn fill_target<'a>(dict: &'a JapaneseDictionary, src: &MorphemeList<&'a JapaneseDictionary>, kind: u8, other: &str, cleared: bool) -> Option<(MorphemeList<&'a JapaneseDictionary>, usize)> {
+    match kind {
+        0 => Some((MorphemeList::empty(dict), 0)),
+        1 => Some((src.empty_clone(), 0)),
+        _ => {
+            let mut l = tokenize_c(dict, other)?;
+            if cleared {
+                l.clear();
+            }
+            let n = l.len();
+            Some((l, n))
+        }
+    }
+}
+
+/// MorphemeList::{copy_slice, split_into, split, from_components, surface} with a target list that is fresh, an
+/// empty_clone of the source, or a list that held (holds) the analysis of ANOTHER text: whatever lands in the target
+/// belongs to the analysis of `text`: it must report exactly what the source list reports for it (copies), tile its parent
+/// (splits), satisfy the C08 offset predicate and the C01 surface predicate against `text`, and the list must name `text`
+/// as its text.
+fn run_fill(sink: &mut Sink, dict: &JapaneseDictionary, t: &Text, other: &str, kind: u8, cleared: bool, st: &Stack, ds: &DictSpec, verbose: bool) {
+    let (sj, dj) = conf_json(st, ds);
+    let d = json!({"kind": "c01-fill", "text": t.json(), "other": other, "target": kind, "cleared": cleared, "stack": sj, "dict": dj});
+    let text = t.expand();
+    sink.tag("list_filling_case");
+    sink.tag(&format!("fill_target={}", TARGET_NAMES[kind as usize]));
+    let src = match tokenize_c(dict, &text) {
+        Some(l) => l,
+        None => {
+            sink.tag("rejected_by_tokenizer");
+            sink.case_rust_only(d, false);
+            return;
+        }
+    };
+    let (parents, ppanic) = read_morphs(&src);
+    if ppanic.is_some() {
+        // reported by the plain mode-C case of the same text
+        sink.case_rust_only(d, false);
+        return;
+    }
+    let n = parents.len();
+    let mut groups: Vec<(usize, usize, Vec<MorphOut>)> = vec![];
+    let failure: std::cell::RefCell<Option<String>> = std::cell::RefCell::new(None);
+    let target_name = if kind == 2 { format!("{} ({:?}, {})", TARGET_NAMES[2], other, if cleared { "cleared" } else { "not cleared" }) } else { TARGET_NAMES[kind as usize].to_string() };
+    // what came into the target must be the morphemes `want` of the source
+    let check = |what: String, target: &MorphemeList<&JapaneseDictionary>, from: usize, want: Option<&[MorphOut]>, range: (usize, usize), groups: &mut Vec<(usize, usize, Vec<MorphOut>)>| {
+        let (got, gpanic) = read_morphs_from(target, from);
+        if verbose {
+            println!("{} into a {}:", what, target_name);
+            for m in &got {
+                println!("    {}..{} (cp {}..{}) {:?}", m.b, m.e, m.bc, m.ec, m.surface);
+            }
+        }
+        if let Some(gp) = gpanic {
+            failure.borrow_mut().get_or_insert(format!("{} into a {}: the morphemes cannot be read back: {}", what, target_name, gp));
+            return;
+        }
+        let mut bad = got.iter().enumerate().find_map(|(k, m)| oracle_morph(&text, k, m));
+        if bad.is_none() {
+            if let Some(w) = want {
+                if w.len() != got.len() {
+                    bad = Some(format!("{} morphemes arrived, {} were copied", got.len(), w.len()));
+                } else {
+                    bad = w.iter().zip(got.iter()).enumerate().find_map(|(k, (a, b))| {
+                        if (a.b, a.e, a.bc, a.ec, &a.surface) != (b.b, b.e, b.bc, b.ec, &b.surface) {
+                            Some(format!("morpheme {} is {}..{} (cp {}..{}) {:?} in the source list and {}..{} (cp {}..{}) {:?} in the target", k, a.b, a.e, a.bc, a.ec, a.surface, b.b, b.e, b.bc, b.ec, b.surface))
+                        } else {
+                            None
+                        }
+                    });
+                }
+            }
+        }
+        if bad.is_none() {
+            let mut pos = range.0;
+            for (k, m) in got.iter().enumerate() {
+                if m.b != pos {
+                    bad = Some(format!("morpheme {} begins at byte {} but the previous one ended at {}", k, m.b, pos));
+                    break;
+                }
+                pos = m.e;
+            }
+            if bad.is_none() && pos != range.1 {
+                bad = Some(format!("the last morpheme ends at byte {}, the covered range at {}", pos, range.1));
+            }
+        }
+        if let Some(b) = bad {
+            failure.borrow_mut().get_or_insert(format!("{} into a {}: {}", what, target_name, b));
+        }
+        let list_text = catch(|| target.surface().to_string());
+        if list_text.as_deref() != Ok(text.as_str()) {
+            failure.borrow_mut().get_or_insert(format!("{} into a {}: the list names {:?} as its text, the morphemes belong to {:?}", what, target_name, list_text.unwrap_or_default().chars().take(40).collect::<String>(), text.chars().take(40).collect::<String>()));
+        }
+        if !got.is_empty() {
+            groups.push((range.0, range.1, got));
+        }
+    };
+    // ---- copy_slice: the whole list, its first / last morpheme, its middle, an empty slice; then two pieces in a row
+    let mut ranges = vec![(0, n)];
+    if n > 1 {
+        ranges.push((0, 1));
+        ranges.push((n - 1, n));
+    }
+    if n > 2 {
+        ranges.push((1, n - 1));
+    }
+    ranges.push((n / 2, n / 2));
+    for (a, b) in ranges {
+        let (mut target, keep) = match fill_target(dict, &src, kind, other, cleared) {
+            Some(x) => x,
+            None => continue,
+        };
+        if catch(|| src.copy_slice(a, b, &mut target)).is_err() {
+            failure.borrow_mut().get_or_insert(format!("copy_slice({}, {}) of a list of {} morphemes panicked", a, b, n));
+            continue;
+        }
+        if a < b {
+            check(format!("copy_slice({}, {})", a, b), &target, keep, Some(&parents[a..b]), (parents[a].b, parents[b - 1].e), &mut groups);
+            sink.tag("copy_slice_checked");
+        }
+    }
+    if n > 1 {
+        if let Some((mut target, keep)) = fill_target(dict, &src, kind, other, cleared) {
+            if catch(|| {
+                src.copy_slice(0, 1, &mut target);
+                src.copy_slice(1, n, &mut target);
+            })
+            .is_ok()
+            {
+                check("copy_slice(0, 1) and copy_slice(1, n)".to_string(), &target, keep, Some(&parents[..]), (parents[0].b, parents[n - 1].e), &mut groups);
+            }
+        }
+    }
+    // ---- split_into / split: the sub-morphemes (or the unsplit morpheme itself) tile their parent
+    for (i, p) in parents.iter().enumerate().take(6) {
+        for mode in 0..2u8 {
+            if let Some((mut target, keep)) = fill_target(dict, &src, kind, other, cleared) {
+                match catch(|| src.split_into(mode_of(mode), i, &mut target)) {
+                    Ok(Ok(true)) => {
+                        check(format!("split_into({}, {})", MODE_NAMES[mode as usize], i), &target, keep, None, (p.b, p.e), &mut groups);
+                        sink.tag("split_into_other_target_checked");
+                    }
+                    Ok(Ok(false)) => {
+                        // what Python's Morpheme.split(add_single=True) does next
+                        if catch(|| src.copy_slice(i, i + 1, &mut target)).is_ok() {
+                            check(format!("split_into({}, {}) = false, then copy_slice({}, {})", MODE_NAMES[mode as usize], i, i, i + 1), &target, keep, Some(&parents[i..i + 1]), (p.b, p.e), &mut groups);
+                        }
+                    }
+                    _ => sink.tag("split_into_panicked_or_failed(not C01/C08)"),
+                }
+            }
+            if kind == 1 {
+                #[allow(deprecated)]
+                let r = catch(|| src.split(mode_of(mode), i));
+                if let Ok(Ok(l)) = r {
+                    check(format!("split({}, {})", MODE_NAMES[mode as usize], i), &l, 0, None, (p.b, p.e), &mut groups);
+                    sink.tag("deprecated_split_checked");
+                }
+            }
+        }
+    }
+    // ---- from_components: the parts swap_result hands out, put together again
+    if kind == 0 {
+        let l = catch(|| {
+            let mut tok = StatefulTokenizer::new(dict, Mode::C);
+            tok.reset().push_str(&text);
+            if tok.do_tokenize().is_err() {
+                return None;
+            }
+            let mut input = Default::default();
+            let mut path = vec![];
+            let mut sub = Default::default();
+            tok.swap_result(&mut input, &mut path, &mut sub);
+            Some(MorphemeList::from_components(dict, input, path, sub))
+        });
+        if let Ok(Some(l)) = l {
+            if n > 0 {
+                check("from_components(swap_result)".to_string(), &l, 0, Some(&parents[..]), (parents[0].b, parents[n - 1].e), &mut groups);
+            }
+        }
+    }
+    let failure = failure.borrow().clone();
+    let f = if prop() == Prop::C08 { "check_c08_subs" } else { "check_c01_subs" };
+    let term = format!("{} {} {}", f, cbytes(text.as_bytes()), clist(groups.iter().map(|(b, e, s)| format!("({}, {}, {})", cnu(*b), cnu(*e), morph_terms(s)))));
+    let id = if text.len() > 3000 { sink.case_rust_only(d, false) } else { sink.case(term, d, kind == 2 && n > 1) };
+    if verbose {
+        println!("oracle     : {:?}", failure);
+    }
+    if let Some(w) = failure {
+        sink.fail(id, &w, "");
+    }
+}
+
+/// MorphemeList::lookup(query) on a fresh list, on an empty_clone of a list that holds another analysis, on that list
+/// itself (cleared or not): every entry found is the whole query: 0..|query| in bytes and in code points, surface = query
+fn run_lookup(sink: &mut Sink, dict: &JapaneseDictionary, query: &str, other: &str, kind: u8, cleared: bool, st: &Stack, ds: &DictSpec, verbose: bool) {
+    let (sj, dj) = conf_json(st, ds);
+    let d = json!({"kind": "c01-lookup", "text": query, "other": other, "target": kind, "cleared": cleared, "stack": sj, "dict": dj});
+    sink.tag("list_lookup_case");
+    sink.tag(&format!("lookup_target={}", TARGET_NAMES[kind as usize]));
+    let holder = match tokenize_c(dict, other) {
+        Some(l) => l,
+        None => {
+            sink.case_rust_only(d, false);
+            return;
+        }
+    };
+    let (mut target, keep) = match fill_target(dict, &holder, kind, other, cleared) {
+        Some(x) => x,
+        None => {
+            sink.case_rust_only(d, false);
+            return;
+        }
+    };
+    let found = match catch(|| target.lookup(query, InfoSubset::all())) {
+        Ok(Ok(k)) => k,
+        _ => {
+            sink.tag("lookup_failed_or_panicked(not C01/C08)");
+            sink.case_rust_only(d, false);
+            return;
+        }
+    };
+    let (got, gpanic) = read_morphs_from(&target, keep);
+    if verbose {
+        println!("lookup({:?}) on a {} (other text {:?}, cleared {}): {} entries", query, TARGET_NAMES[kind as usize], other, cleared, found);
+        for m in &got {
+            println!("    {}..{} (cp {}..{}) {:?}", m.b, m.e, m.bc, m.ec, m.surface);
+        }
+    }
+    let mut failure = gpanic.map(|p| format!("lookup({:?}): the entries cannot be read back: {}", query, p));
+    if failure.is_none() && got.len() != found {
+        failure = Some(format!("lookup({:?}) answered {} but {} morphemes were added", query, found, got.len()));
+    }
+    if failure.is_none() {
+        failure = got.iter().enumerate().find_map(|(k, m)| {
+            oracle_morph(query, k, m).or_else(|| if (m.b, m.e) != (0, query.len()) { Some(format!("entry {} spans {}..{}, the query is 0..{}", k, m.b, m.e, query.len())) } else { None })
+        });
+    }
+    let f = if prop() == Prop::C08 { "check_c08_subs" } else { "check_c01_subs" };
+    let term = format!("{} {} {}", f, cbytes(query.as_bytes()), clist(got.iter().map(|m| format!("({}, {}, {})", cnu(0), cnu(query.len()), morph_terms(std::slice::from_ref(m))))));
+    let id = sink.case(term, d, !got.is_empty() && kind == 2);
+    if !got.is_empty() {
+        sink.tag("lookup_found_entries");
+    }
+    if verbose {
+        println!("oracle     : {:?}", failure);
+    }
+    if let Some(w) = failure {
+        sink.fail(id, &w, "");
+    }
+}
+
 // ---------------------------------------------------------------- reuse of one tokenizer and one result list
 /// what is done to the tokenizer before one input of a session
 #[derive(Clone, Debug)]
@@ -937,6 +1226,8 @@ fn replay(sink: &mut Sink, p: &std::path::Path) {
             run_session(sink, &dict, mode_from(&c["init_mode"]), &steps, &st, &ds, true);
         }
         "c01-split" => run_split(sink, &dict, &Text::from_json(&c["text"]), subset_from(&c["subset"]), &st, &ds, true),
+        "c01-fill" => run_fill(sink, &dict, &Text::from_json(&c["text"]), c["other"].as_str().unwrap_or(""), c["target"].as_u64().unwrap_or(0) as u8, c["cleared"].as_bool().unwrap_or(true), &st, &ds, true),
+        "c01-lookup" => run_lookup(sink, &dict, c["text"].as_str().unwrap_or(""), c["other"].as_str().unwrap_or(""), c["target"].as_u64().unwrap_or(0) as u8, c["cleared"].as_bool().unwrap_or(true), &st, &ds, true),
         _ => {
             println!("mode {} field subset {}", c["mode"], c["subset"]);
             run_one(sink, &dict, &Text::from_json(&c["text"]), mode_from(&c["mode"]), subset_from(&c["subset"]), &st, &ds, true);
@@ -1029,6 +1320,40 @@ pub fn pipeline(which: Prop, sink: &mut Sink, args: &Args, rng: &mut Rng) {
             sink.tag("directed");
             sink.tag("special_first_character");
         }
+        // the other public ways of filling a MorphemeList (copy_slice, split_into / split with any target, from_components,
+        // lookup): targets that are fresh, an empty_clone of the source, or a list that held the analysis of another text
+        // with a different byte / character layout (plain ASCII, full-width text the plugins rewrite, empty), cleared or not
+        for (t, other) in [
+            ("東京都に行く", "abcdefghijklmnopqrstuvwxyz"),
+            ("a東京都に", "ＡＢＣＤ東京都"),
+            ("京都東京都京都", "ＡＢ東京都（と）にすごーーい"),
+            ("ｶﾞｷﾞ東京都ーーに行く", "x京都"),
+            ("abc", "東京都に行く"),
+            ("東京都", ""),
+        ] {
+            for (d, s) in [(&dict, &full), (&dict_bare, &bare)] {
+                for kind in 0..3u8 {
+                    for cleared in [true, false] {
+                        if kind != 2 && !cleared {
+                            continue;
+                        }
+                        run_fill(sink, d, &Text::plain(t), other, kind, cleared, s, &ds0, false);
+                        sink.tag("directed");
+                    }
+                }
+            }
+        }
+        for (q, other) in [("東京都", "abcdefghijklmnopqrstuvwxyz"), ("京都", "ＡＢＣＤ東京都"), ("東京", ""), ("ない語", "東京都に行く"), ("", "京都")] {
+            for kind in 0..3u8 {
+                for cleared in [true, false] {
+                    if kind != 2 && !cleared {
+                        continue;
+                    }
+                    run_lookup(sink, &dict, q, other, kind, cleared, &full, &ds0, false);
+                    sink.tag("directed");
+                }
+            }
+        }
         // the two length limits
         if which == Prop::C01 {
             // with the full plugin stack and with no input-text plugin at all
@@ -1112,6 +1437,15 @@ pub fn pipeline(which: Prop, sink: &mut Sink, args: &Args, rng: &mut Rng) {
                 sink.tag("mode_B_splits_further_than_C");
             }
             run_split(sink, &dict, &text, subset, &st, &ds, false);
+            if rng.chance(1, 3) {
+                let other = gen_text(rng, &bd.words);
+                let kind = rng.below(3) as u8;
+                let cleared = rng.chance(1, 2) || kind != 2;
+                run_fill(sink, &dict, &text, &other, kind, cleared, &st, &ds, false);
+                if rng.chance(1, 2) {
+                    run_lookup(sink, &dict, rng.pick(&bd.words).as_str(), &other, kind, cleared, &st, &ds, false);
+                }
+            }
         }
         // sessions on one tokenizer + one result list
         for _ in 0..args.n(2, 6) {
